@@ -113,20 +113,20 @@ def run_job(job):
         rp = replay(pid, hname, params, model, opts)
         # inputs that the counterexample leaves free get generic values; try a few different ones
         for salt in range(1, 1 + int(opts.get('replay_retries', 4))):
-            if rp['failed'] or (rp['error'] and not rp['invalid']):
+            if rp['failed'] or (rp['error'] and not rp['invalid'] and kind == 'exception'):
                 break
             model = dict(model, __salt__=salt)
             rp = replay(pid, hname, params, model, opts)
         # solver models tend to be degenerate (many zeros); a generic defect also shows on generic inputs: the replay decides
         for salt in (0, 2):
-            if rp['failed'] or (rp['error'] and not rp['invalid']) or kind not in ('sat', 'unknown'):
+            if rp['failed'] or kind not in ('sat', 'unknown', 'ground-fail'):
                 break
             model = dict(__salt__=salt)
             rp = replay(pid, hname, params, model, opts)
         if kind == 'exception' and rp['error'] and not rp['failed'] and rp['error'].split(':')[0] != detail.split(':')[0]:
             R['inconclusive'].append(dict(label=label, why='symbolic path raised %s but the concrete replay raised %s' % (detail[:200], rp['error'][:200])))
             return False
-        if rp['failed'] or (rp['error'] and not rp['invalid'] and kind in ('exception', 'sat', 'ground-fail')
+        if rp['failed'] or (rp['error'] and not rp['invalid'] and kind in ('exception',)
                             and not _is_expected(rp['error'], expected)):
             R['violations'].append(dict(harness=hname, params=params, label=label, kind=kind, detail=detail,
                                         values=model, failed=rp['failed'][:6], error=rp['error'],
